@@ -150,7 +150,7 @@ def msg_def(rng, did):
         v["docs"] = [cp(rng.choice(DOC_LINES)) for _ in range(rng.choice([0, 0, 1, 1, 2, 3, 4]))]
         vs.append(v)
     return enum(did, vs, style=rng.choice(["none", "none", "snake_case", "SCREAMING-KEBAB-CASE", "title_case", "camelCase"]),
-                prefix=rng.choice([None, None, "p_"]), split=rng.randrange(2))
+                prefix=rng.choice([None, None, "p_"]), split=rng.randrange(2), aci=rng.random() < 0.3)
 
 
 def msg_special(did, k):
@@ -209,8 +209,9 @@ def prop_def(rng, did):
         # group order = attribute order: sort by group, stable
         props.sort(key=lambda p: p["grp"])
         v["props"] = props
+        IG.decorate(rng, v)
         vs.append(v)
-    return enum(did, vs, split=rng.randrange(2))
+    return enum(did, vs, split=rng.randrange(2), aci=rng.random() < 0.3)
 
 
 def prop_special(did, k):
@@ -224,7 +225,10 @@ def prop_special(did, k):
         [variant("First", props=[P("colour", "s", "red", 0)]), variant("Hidden", dis=True, props=[P("colour", "s", "grey", 0), P("closed", "b", [1], 0, "true")]),
          variant("Second", "tuple", [field("u8")], props=[P("colour", "s", "blue", 0)]), variant("Last")],
     ]
-    return enum(did, shapes[k % len(shapes)])
+    E = enum(did, shapes[k % len(shapes)])
+    if k >= 2:
+        E = enum(did, [variant("Room", props=[P("Room", "s", "201", 0), P("room", "i", "7", 0, "7")], aci=1), variant("Plain", props=[P("Key", "s", "true", 0)])], aci=True)
+    return E
 
 
 def prop_module(E, rng):
